@@ -929,7 +929,7 @@ func run() {
 			if len(t) != 5+k {
 				panic("bad rt op")
 			}
-			hx.St.Inc(fmt.Sprintf("records.%d", k))
+			hx.St.Inc("records." + bucket(k))
 			f, err := kgo.NewRecordFormatter(layout)
 			if err != nil {
 				hx.St.Inc("formatter-rejected")
@@ -942,7 +942,6 @@ func run() {
 				hx.St.Inc(fmt.Sprintf("valuelen.%s", bucket(len(x.value))))
 				s = f.AppendRecord(s, x.kgo())
 			}
-			hx.St.Inc("streamlen." + bucket(len(s)))
 			if t[0] == "fm" {
 				return "S=" + hx.Hex(nonNil(s))
 			}
